@@ -148,10 +148,20 @@ impl Ctx {
     }
 
     pub fn sample(&mut self, v: Value) {
-        if self.samples.len() < 12 {
+        if self.samples.len() < 16 {
             self.samples.push(v);
         }
     }
+    /// A sample that is actually executed on the real code during this run: the operation list and the transcript
+    /// the real code produced for it (same interpreter as `vcheck replay`).
+    pub fn sample_run(&mut self, component: &str, ops: &[&str]) {
+        let parsed: Vec<crate::replay::Op> = ops.iter().filter_map(|o| crate::replay::Op::parse(o)).collect();
+        let t = replay::run_part(component, &parsed);
+        if self.samples.len() < 16 {
+            self.samples.insert(0, json!({"component": component, "ops": ops, "observed_on_the_real_code_in_this_run": t}));
+        }
+    }
+
     pub fn trust(&mut self, s: &str) {
         if !self.trusted.iter().any(|x| x == s) {
             self.trusted.push(s.to_string());
